@@ -1771,6 +1771,13 @@ static void emit_text(Obj *prog) {
       }
     }
 
+#ifdef CHIBICC_VERIF
+    // The runtime remembers the x87 register-stack state at function
+    // entry; statement probes compare against it.
+    if (verif_probes)
+      println("  call __verif_fn_entry@PLT");
+#endif
+
     // Emit code
     gen_stmt(fn->body);
     assert(depth == 0);
@@ -1784,6 +1791,10 @@ static void emit_text(Obj *prog) {
 
     // Epilogue
     println(".L.return.%s:", fn->name);
+#ifdef CHIBICC_VERIF
+    if (verif_probes)
+      println("  call __verif_fn_exit@PLT");
+#endif
     println("  mov %%rbp, %%rsp");
     println("  pop %%rbp");
     println("  ret");
